@@ -24,6 +24,17 @@ if REPO not in sys.path:
     sys.path.insert(0, REPO)
 
 
+SEARCH_DEADLINE = [None]
+
+
+def set_search_budget(seconds):
+    SEARCH_DEADLINE[0] = time.time() + seconds
+
+
+def search_expired():
+    return SEARCH_DEADLINE[0] is not None and time.time() > SEARCH_DEADLINE[0]
+
+
 class MachineryError(Exception):
     """our own tooling failed (exit 2) — never a violation"""
 
